@@ -71,6 +71,20 @@ def generate(rng, tier):
         cases.append(case('', body + tail))
         cases.append(case('w', tail + body))
     yield ('long-runs', cases)
+    # every ASCII byte (control bytes included) and a few multi-byte characters in every digit position of \\uXXXX / \\UXXXXXX,
+    # alone and next to its case/bit variants: "hex digit" must mean exactly [0-9a-fA-F]
+    cases = []
+    alphabet = [chr(c) for c in range(0, 128)] + ['\u00e9', '\u20ac', '\U0001f600', '\u0660', '\uff11']
+    for kind, k in (('u', 4), ('U', 6)):
+        base = '0041' if k == 4 else '000041'
+        for pos in range(k):
+            for ch in alphabet:
+                body = base[:pos] + ch + base[pos + 1:]
+                cases.append(case('', 'a\\' + kind + body + 'b'))
+        for ch in alphabet:
+            cases.append(case('', '\\' + kind + ch * k))
+            cases.append(case('w', '\\' + kind + ch * (k - 1)))
+    yield ('exhaustive-digit-positions', cases)
 
 
 def reference(b):
